@@ -31,7 +31,7 @@ theorem N3_DTAU_DDF__DTAU_DF (hc : c * c = 2) (h2 : (2:K) ≠ 0)
     obtain ⟨d00,d01,d02,d10,d11,d12,d20,d21,d22⟩ := Δ
     obtain ⟨g00,g01,g02,g10,g11,g12,g20,g21,g22⟩ := F0
     obtain ⟨l00,l01,l02,l10,l11,l12,l20,l21,l22⟩ := L
-    c23_rat0 hc
+    c23_rat0c hc
   rw [key]
 
 end TfelVerif.C23.PropsN3_DTAU_DDF__DTAU_DF
